@@ -3,8 +3,8 @@
    (one step = one shared-state access at a schedule point of hook H3; SeqCst
    atomics, the Mutex-protected index and DashMap get / entry / or_insert are
    atomic steps).  Any number of threads, any programs, any schedule. *)
-From RS Require Import Base.Prelude Base.Text Stream.Types Stream.Replace Sem.ReplaceObj Sem.Conc.
-From RS Require Proofs.ConcReplace Proofs.ConcCached.
+From RS Require Import Base.Prelude Base.Text Stream.Types Stream.Replace Sem.ReplaceObj Sem.Conc Sem.ConcLock.
+From RS Require Proofs.ConcReplace Proofs.ConcCached Proofs.ConcLockProofs.
 
 (* ReplaceSource, lazily sorted index: every observer under every interleaving renders with the
    index a single thread would compute *)
@@ -78,3 +78,41 @@ Theorem C18_write_once_pinned_refuted : exists progs sched,
   let '(sh, ts, hist) := cached_run false progs sched in write_once_from [] hist = false.
 Proof. exact ConcCached.C18_write_once_pinned_refuted. Qed.
 Print Assumptions C18_write_once_pinned_refuted.
+
+(* ---- the critical section of the stream fill path made visible (Sem/ConcLock.v): acquire at
+   stream_entry, store-and-release at stream_insert, every other access blocks meanwhile ---- *)
+
+(* write-once also holds at this finer granularity, for all programs and schedules *)
+Theorem C18_locked_write_once : forall progs sched,
+  let '(sh, ts, hist) := locked_run true progs sched in
+  write_once_from [] hist = true
+  /\ (forall c, In c hist -> forall k id, cget c k = Some id -> cget (cs_cache (ls_c sh)) k = Some id).
+Proof. exact ConcLockProofs.locked_write_once. Qed.
+Print Assumptions C18_locked_write_once.
+
+(* no call gets stuck although threads block on the lock: every thread finishes its program and
+   was served from the entry in force *)
+Theorem C18_locked_served_in_force : forall progs sched,
+  let '(sh, ts, hist) := locked_run true progs sched in
+  Forall2 (fun ops t =>
+             lt_pc t = LDone /\ lt_ops t = [] /\ length (lt_served t) = length ops /\
+             Forall2 (fun o id => cget (cs_cache (ls_c sh)) (ckey o) = Some id) ops (lt_served t))
+          progs ts.
+Proof. exact ConcLockProofs.locked_served_in_force. Qed.
+Print Assumptions C18_locked_served_in_force.
+
+(* every outcome of the locking semantics is an outcome of the atomic semantics above: the
+   critical section is linearisable *)
+Theorem C18_locked_linearisable : forall progs sched, exists sched',
+  let '(sh, ts, _) := locked_run true progs sched in
+  let '(sh', ts', _) := cached_run true progs sched' in
+  cs_cache (ls_c sh) = cs_cache sh' /\ map lt_served ts = map ct_served ts' /\ map lt_fill ts = map ct_fill ts'.
+Proof. exact ConcLockProofs.locked_linearisable. Qed.
+Print Assumptions C18_locked_linearisable.
+
+(* a fill path that does not keep the shard locked and stores with insert() replaces an entry
+   (the seeded change C18-stream-fill-unlocked-insert is this) *)
+Theorem C18_unlocked_fill_refuted : exists progs sched,
+  let '(sh, ts, hist) := locked_run false progs sched in write_once_from [] hist = false.
+Proof. exact ConcLockProofs.unlocked_fill_refuted. Qed.
+Print Assumptions C18_unlocked_fill_refuted.
